@@ -537,7 +537,7 @@ PROPS = {
         "static": [("reassembly", "c09.go")],
         "bounds": "Sequence lemma over all 2^64 pairs (distance < 2^30); histories: SYN + k <= 2 (quick) / 3 (thorough) segments with symbolic offset 0..7 and length 0..3 into an 11-byte symbolic stream, fully symbolic 32-bit ISN, stream optionally keeping the last byte (KeepFrom), optional FlushWithOptions after each segment and final FlushAll",
         "outside": "longer histories, multi-page segments, both directions interleaved, page limits",
-        "quick": {"timeout": 900, "units": "verif_C09_(seq_lemma|hist2|hist2_keep)"},
+        "quick": {"timeout": 900, "units": "verif_C09_(seq_lemma|hist2|hist2_keep|hist2_flush_keep)"},
         "thorough": {"timeout": 3000},
     },
     "C10": {
